@@ -18,6 +18,7 @@ import (
 func init() {
 	register(&Scenario{Prop: "C05", Name: "registry-wellformed", Run: func(rc *RunCtx) { runRegistrySeq(rc, "C05") }})
 	register(&Scenario{Prop: "C06", Name: "registry-inuse", Run: func(rc *RunCtx) { runRegistrySeq(rc, "C06") }})
+	register(&Scenario{Prop: "C06", Name: "registry-enum", Run: runRegistryEnum})
 	register(&Scenario{Prop: "C07", Name: "registry-policy", Run: func(rc *RunCtx) { runRegistrySeq(rc, "C07") }})
 	register(&Scenario{Prop: "C20", Name: "registry-reopen", Run: func(rc *RunCtx) { runRegistrySeq(rc, "C20") }})
 }
@@ -382,7 +383,61 @@ type regDesc struct {
 	History []string `json:"history"`
 }
 
-func runRegistrySeq(rc *RunCtx, prop string) {
+// registryEnumAlphabet: the reduced alphabet whose call sequences are
+// enumerated exhaustively up to a small depth (C06).
+var registryEnumAlphabet = []regOp{
+	{Kind: "regpipe", Typ: "ta", PID: "p0", NodeIDs: []string{"n0", "n1", "n2"}},
+	{Kind: "regpipe", Typ: "ta", PID: "p0", NodeIDs: []string{"n1", "n2"}},
+	{Kind: "regpipe", Typ: "ta", PID: "p1", NodeIDs: []string{"n0", "n0", "n1", "n2"}},
+	{Kind: "rmpipe", Typ: "ta", PID: "p0"},
+	{Kind: "rmpipe", Typ: "ta", PID: "p1"},
+	{Kind: "rmpan", Typ: "ta", PID: "p0"},
+	{Kind: "rmpan", Typ: "ta", PID: "p1"},
+	{Kind: "rmnode", ID: "n0"},
+	{Kind: "rmnode", ID: "n2"},
+	{Kind: "regnode", ID: "n0", NodeKind: int(el.NodeTypeFilter)},
+}
+
+// decodeSeq maps idx to the idx-th sequence (shortest first) over an alphabet
+// of size k, up to length maxLen; ok=false beyond the last one.
+func decodeSeq(idx uint64, k, maxLen int) ([]int, bool) {
+	count := uint64(1)
+	for l := 1; l <= maxLen; l++ {
+		count *= uint64(k)
+		if idx < count {
+			seq := make([]int, l)
+			for i := l - 1; i >= 0; i-- {
+				seq[i] = int(idx % uint64(k))
+				idx /= uint64(k)
+			}
+			return seq, true
+		}
+		idx -= count
+	}
+	return nil, false
+}
+
+func runRegistryEnum(rc *RunCtx) {
+	depth := 4
+	if rc.Tier == "thorough" {
+		depth = 5
+	}
+	seq, ok := decodeSeq(rc.EnumIndex, len(registryEnumAlphabet), depth)
+	if !ok {
+		runRegistrySeqOps(rc, "C06", nil)
+		return
+	}
+	ops := make([]regOp, len(seq))
+	for i, x := range seq {
+		ops[i] = registryEnumAlphabet[x]
+	}
+	rc.Stat("enum.histories", 1)
+	runRegistrySeqOps(rc, "C06", ops)
+}
+
+func runRegistrySeq(rc *RunCtx, prop string) { runRegistrySeqOps(rc, prop, nil) }
+
+func runRegistrySeqOps(rc *RunCtx, prop string, fixed []regOp) {
 	tp := rc.Tape
 	sim := rc.Sim
 	types := []string{"ta", "tb"}
@@ -401,6 +456,9 @@ func runRegistrySeq(rc *RunCtx, prop string) {
 	n := 1 + tp.Choose(maxLen, "histlen")
 	if tp.Choose(3, "short") == 0 {
 		n = 1 + tp.Choose(7, "histlen-short")
+	}
+	if fixed != nil {
+		n = len(fixed)
 	}
 	desc := &regDesc{Types: types, IDs: ids}
 	rc.Desc = desc
@@ -544,7 +602,7 @@ func runRegistrySeq(rc *RunCtx, prop string) {
 		// C20/C06/C07: start from registered nodes more often than not
 		if prop != "C05" || tp.Choose(2, "prereg") == 0 {
 			for _, id := range ids {
-				if tp.Choose(5, "skipnode") == 0 {
+				if tp.Choose(5, "skipnode") == 0 && fixed == nil {
 					continue
 				}
 				op := regOp{Kind: "regnode", ID: id, NodeKind: idKind[id]}
@@ -564,6 +622,10 @@ func runRegistrySeq(rc *RunCtx, prop string) {
 			}
 			op := genOp(w)
 			doProbe := prop != "C20" && (op.Kind != "send") && tp.Choose(3, "probe") == 0
+			if fixed != nil {
+				op = fixed[i]
+				doProbe = true
+			}
 			pad()
 			var preObs, preDel, preUse string
 			diff := prop == "C05"
